@@ -299,7 +299,22 @@ func c03One(c *core.Ctx, r *core.Result, w *World, era drive.Era, base *LedgerVi
 			dApp = dApp[:6]
 		}
 		cls := "neither-applied-nor-rejected"
-		r.Violate(core.Violation{Key: key, Signature: "C03:" + cls + ":" + era.Name + ":" + c03Shape(txs, bankEra),
+		// shape of the discrepancy against the full effect
+		convDst := map[string]bool{}
+		for _, t := range txs {
+			if t.Conv != "" && t.Conv != "PEG" {
+				convDst[t.Conv] = true
+			}
+		}
+		shape := "excess-credit-of-converted-asset"
+		for _, d := range dApp {
+			var a8, asset string
+			var e, g int64
+			if n, _ := fmt.Sscanf(d, "%s %s expected %d got %d", &a8, &asset, &e, &g); n != 4 || g <= e || !convDst[strings.TrimSuffix(asset, ":")] || a8 != hex.EncodeToString(D[:])[:8] {
+				shape = "other"
+			}
+		}
+		r.Violate(core.Violation{Key: key, Signature: "C03:" + cls + ":" + era.Name + ":" + c03Shape(txs, bankEra) + ":" + shape,
 			Desc:   fmt.Sprintf("batch %v left balances that are neither those of the chain without it nor its full effect", txs),
 			Detail: append(append([]string{"vs rejected:"}, dRej...), append([]string{"vs applied:"}, dApp...)...)})
 	}
